@@ -118,7 +118,17 @@ fn judge(
         // panics if and only if no global client has been set
         match macro_res {
             Err(_) => cx.rep.obs("unset_macros_panicked", 1),
-            Ok(()) => cx.violation("panic-iff-unset", "no-panic-when-unset", format!("{} did not panic although no global client is set", mac), trace),
+            Ok(()) => {
+                cx.violation("panic-iff-unset", "no-panic-when-unset", format!("{} did not panic although no global client is set", mac), trace);
+                return;
+            }
+        }
+        // ... and like the explicit chain `get_global_default().unwrap().<kind>_with_tags(key, value)...`, which fails at the
+        // unwrap, it does so before touching its arguments (an argument expression may have side effects - even set a client)
+        if macro_evals.iter().any(|n| *n != 0) {
+            cx.violation("same-as-explicit-chain", "arguments-evaluated-although-unset", format!("{}: no global client is set, the explicit chain panics before evaluating anything, the macro evaluated its arguments {:?} times (key, value, tag pairs)", mac, macro_evals), trace);
+        } else {
+            cx.rep.obs("unset_macros_that_left_their_arguments_alone", 1);
         }
         return;
     }
@@ -457,6 +467,41 @@ fn main() {
             cx.violation("single-emit", "emit-count", format!("{} macros around a thread's exit produced {} emits", expected, sent), Json::Null);
         }
         cx.sink.log.lock().unwrap().script.clear();
+    }
+    // control flow inside an argument expression: `return` in a tag value leaves the CALLER, as it does in the explicit
+    // chain - the macro is not a function call, and nothing around the argument may catch the jump
+    if !unset {
+        use std::sync::atomic::{AtomicBool, Ordering as O};
+        fn via_macro(u: Option<&str>, after: &AtomicBool) {
+            statsd_gauge!("ret.k", 1u64, "user" => match u { Some(u) => u, None => return });
+            statsd_count!(match u { Some(_) => "ret.c", None => return }, 2i64);
+            after.store(true, O::SeqCst);
+        }
+        fn via_chain(u: Option<&str>, after: &AtomicBool) {
+            get_global_default().unwrap().gauge_with_tags("ret.k", 1u64).with_tag("user", match u { Some(u) => u, None => return }).send();
+            get_global_default().unwrap().count_with_tags(match u { Some(_) => "ret.c", None => return }, 2i64).send();
+            after.store(true, O::SeqCst);
+        }
+        for u in [None, Some("alice")] {
+            let (am, ac) = (AtomicBool::new(false), AtomicBool::new(false));
+            let b0 = cx.sink.emit_count();
+            let rm = panics::guard(|| via_macro(u, &am));
+            let nm = cx.sink.emit_count() - b0;
+            cx.sink.log.lock().unwrap().script.clear();
+            let b1 = cx.sink.emit_count();
+            let rc = panics::guard(|| via_chain(u, &ac));
+            let nc = cx.sink.emit_count() - b1;
+            cx.sink.log.lock().unwrap().script.clear();
+            cx.rep.obs("macros_with_a_return_inside_an_argument", 2);
+            if rm.is_ok() != rc.is_ok() || nm != nc || am.load(O::SeqCst) != ac.load(O::SeqCst) {
+                cx.violation(
+                    "same-as-explicit-chain",
+                    "control-flow-in-argument",
+                    format!("an argument expression that returns from the caller ({:?}): after the macros the caller went on = {}, {} emits; after the explicit chains the caller went on = {}, {} emits", u, am.load(O::SeqCst), nm, ac.load(O::SeqCst), nc),
+                    Json::Null,
+                );
+            }
+        }
     }
     if late_set {
         cx.rep.obs("macros_tried_before_set", 2);
